@@ -158,6 +158,11 @@ func checkC04(run *Run, res *Result) {
 			if e.Off == nil {
 				continue
 			}
+			if _, bad := outOfRangeAcked[k]; bad && open[e.M] && !assigned[e.M][e.Vb] && prevHist[k][e.Off.Seq] && e.T-stopT[e.M] <= cfg.CkptTimeout+int64(1e9) {
+				// a save that took its dump while the member still owned the vBucket (previous session) is completing
+				res.probe("save-in-flight-across-sessions")
+				continue
+			}
 			if n, bad := outOfRangeAcked[k]; bad && open[e.M] && !assigned[e.M][e.Vb] {
 				res.violate("C04", "R5-out-of-range-ack-tracked", e.N, fmt.Sprintf("vb=%d", e.Vb),
 					"member %d: an acknowledgement for vb %d outside the assigned range (event #%d) moved the tracked position to %d", e.M, e.Vb, n, e.Off.Seq)
@@ -240,6 +245,11 @@ func checkC04(run *Run, res *Result) {
 			}
 		case journal.KKVW:
 			if e.Off == nil || e.Vb < 0 {
+				continue
+			}
+			if _, bad := outOfRangeAcked[k]; bad && open[e.M] && !assigned[e.M][e.Vb] && prevHist[k][e.Off.Seq] && e.T-stopT[e.M] <= cfg.CkptTimeout+int64(1e9) {
+				// a save that took its dump while the member still owned the vBucket (previous session) is completing
+				res.probe("save-in-flight-across-sessions")
 				continue
 			}
 			if n, bad := outOfRangeAcked[k]; bad && open[e.M] && !assigned[e.M][e.Vb] {
